@@ -136,6 +136,16 @@ def sec6():
         'tolerantly (C16); keep-alive closes the connection, payloads decode into values or nil-checked pointers (C15, C17);',
         'testament buckets per scope and written back (C05, C18); last received id (C19); template realms keep their',
         'Authorizer (C10); identity order, match predicates and match functions shared with C01, C18, C20.',
+        'Round 4 (same brief, new agents, after rounds 1-3 were all detected): 60 variants, first run 7 missed outright and 9',
+        'caught only by a neighbour. New rules: the serializer of a router-side websocket peer is one selected by the',
+        'negotiated sub-protocol, never an unset configuration value (C04, C15); the authenticator is looked up under the very',
+        'method name that is reported and stored as authmethod, and a key store\'s OnWelcome hook is a success point that needs',
+        'the same verification guard as the WELCOME return (C09); the canceled mark is cleared only for invocations of the',
+        'leaving callee, forward_timeout is fixed when the registration is created (C02, C05, C13); every accepted cancel mode',
+        'is stored and the empty one resets to killnowait (C16); abandonCall releases the waiter on every path (C16, C17);',
+        'and rules shared with the neighbour that had caught the variant: URI pattern dispatch (C01, C03), shutdown flag (C03),',
+        'dict privacy of the kill GOODBYE (C05, C18), meta-session shutdown join (C07), duplicate callee (C08), last received',
+        'id (C16), no nil message from a transport (C17), private copies for in-process subscribers (C20).',
         'Reading for these rounds also turned up four more genuine defects, all reproduced and repaired: D31 (sub-agent',
         'remark while working on C02), D32–D34 (sub-agent remarks while working on C06) and D35 (several sub-agents saw the',
         'repository\'s own TestClientRace hang in Client.Register under load: an API call blocked in its send when the session',
